@@ -316,8 +316,13 @@ func (w *vkWorld) threadMain(th *vkThread) {
 var vkWaiting = []string{"chan receive", "chan send", "select", "sync.Mutex.Lock", "sync.RWMutex.RLock",
 	"sync.RWMutex.Lock", "semacquire", "sync.Cond.Wait", "sync.WaitGroup.Wait", "IO wait", "sleep"}
 
-// vkQuiet: no goroutine that is executing godi (or harness-thread) code can run right now.
-func vkQuiet(self int64) (bool, string) {
+type vkGor struct {
+	state string
+	body  string
+}
+
+// vkDump parses the dump of all goroutines that are executing godi (or harness-thread) code.
+func vkDump(self int64) map[int64]vkGor {
 	buf := make([]byte, 1<<18)
 	for {
 		n := runtime.Stack(buf, true)
@@ -327,6 +332,7 @@ func vkQuiet(self int64) (bool, string) {
 		}
 		buf = make([]byte, 2*len(buf))
 	}
+	out := map[int64]vkGor{}
 	for _, blk := range strings.Split(string(buf), "\n\n") {
 		nl := strings.IndexByte(blk, '\n')
 		if nl < 0 {
@@ -341,22 +347,56 @@ func vkQuiet(self int64) (bool, string) {
 		if id == self || !strings.Contains(body, "godi/v4.") {
 			continue
 		}
-		lb, rb := strings.IndexByte(hdr, '['), strings.LastIndexByte(hdr, ']')
-		if lb < 0 || rb < lb {
-			return false, hdr
-		}
-		state := hdr[lb+1 : rb]
-		if c := strings.IndexByte(state, ','); c >= 0 {
-			state = state[:c]
-		}
-		ok := false
-		for _, ws := range vkWaiting {
-			if strings.HasPrefix(state, ws) {
-				ok = true
+		state := "?"
+		if lb, rb := strings.IndexByte(hdr, '['), strings.LastIndexByte(hdr, ']'); lb >= 0 && rb > lb {
+			state = hdr[lb+1 : rb]
+			if c := strings.IndexByte(state, ','); c >= 0 {
+				state = state[:c]
 			}
 		}
+		out[id] = vkGor{state, body}
+	}
+	return out
+}
+
+func vkIsWaiting(state string) bool {
+	for _, ws := range vkWaiting {
+		if strings.HasPrefix(state, ws) {
+			return true
+		}
+	}
+	return false
+}
+
+// quiet: nothing that runs godi code can move.
+//   - every goroutine with godi frames is in a waiting state, and
+//   - every harness thread that is neither parked in user code nor finished is POSITIVELY blocked at
+//     one of the two blocking operations of the protocol: the creation mutex (lockCreation) or the
+//     `closed` channel of a scope being closed by somebody else (dispose / Close).
+func (w *vkWorld) quiet(self int64) (bool, string) {
+	dump := vkDump(self)
+	for id, g := range dump {
+		if !vkIsWaiting(g.state) {
+			return false, fmt.Sprintf("goroutine %d is %s", id, g.state)
+		}
+	}
+	w.mu.Lock()
+	defer w.mu.Unlock()
+	for _, th := range w.byID {
+		if !th.started || th.done || th.parked != nil {
+			continue
+		}
+		if th.goid == 0 {
+			return false, fmt.Sprintf("thread %d has not registered yet", th.id)
+		}
+		g, ok := dump[th.goid]
 		if !ok {
-			return false, hdr
+			return false, fmt.Sprintf("thread %d is between states", th.id)
+		}
+		onMutex := strings.HasPrefix(g.state, "sync.Mutex.Lock") && strings.Contains(g.body, "lockCreation")
+		onChan := strings.HasPrefix(g.state, "chan receive") && (strings.Contains(g.body, ").dispose(") || strings.Contains(g.body, "(*scope).Close("))
+		if !onMutex && !onChan {
+			return false, fmt.Sprintf("thread %d is %s but not at a blocking operation of the protocol", th.id, g.state)
 		}
 	}
 	return true, ""
@@ -364,25 +404,26 @@ func vkQuiet(self int64) (bool, string) {
 
 var vkHangLimit = 20 * time.Second
 
-// settle waits until the system is quiescent (two consecutive quiet samples).
+// settle waits until the system is quiescent (three consecutive quiet samples).
 func (w *vkWorld) settle() error {
 	self := vkGoid()
 	deadline := time.Now().Add(vkHangLimit)
-	quiet := 0
+	quiet, why := 0, ""
 	for {
 		runtime.Gosched()
-		if q, _ := vkQuiet(self); q {
+		q, reason := w.quiet(self)
+		if q {
 			quiet++
-			if quiet >= 2 {
+			if quiet >= 3 {
 				return nil
 			}
 		} else {
-			quiet = 0
+			quiet, why = 0, reason
 		}
 		if time.Now().After(deadline) {
-			return errors.New("not quiescent after " + vkHangLimit.String())
+			return errors.New("not quiescent after " + vkHangLimit.String() + " (" + why + ")")
 		}
-		time.Sleep(50 * time.Microsecond)
+		time.Sleep(100 * time.Microsecond)
 	}
 }
 
